@@ -62,11 +62,25 @@ class RewriteMonitor(Monitor):
     def fam(self, cid):
         return self.family.setdefault(cid, cid)
 
+    def relatives(self, op):
+        """Heralded circuits in the copy family of the rewritten circuit."""
+        w = self.w
+        if op["op"] not in REWRITES or not w.has("c", op.get("c")):
+            return []
+        f = self.fam(op["c"])
+        return [cid for cid, c in w.pool["c"].items()
+                if cid != op["c"] and self.fam(cid) == f
+                and c.n_modes != c.input_modes]
+
     def pre(self, op, snap):
         w = self.w
         self.pre_count = None
         self.pre_dists = None
         self.pre_params = None
+        # what a relative's later operations will mean must not change either
+        from .c08 import FrameMonitor  # noqa: PLC0415
+        self.pre_resp = {cid: FrameMonitor.response(None, w.pool["c"][cid])
+                         for cid in self.relatives(op)}
         if op["op"] in ("copy", *REWRITES) and w.has("c", op.get("c")):
             try:
                 self.pre_params = [id(p) for p in
@@ -208,6 +222,19 @@ class RewriteMonitor(Monitor):
                                      "rewritten circuit differs from its "
                                      f"un-rewritten twin (max {_maxdiff(a[4], b[4])})"))
                     del self.shadows[cid]
+        for cid, old in getattr(self, "pre_resp", {}).items():
+            if not w.has("c", cid) or not obs_equal(
+                    before.get(("c", cid)), after.get(("c", cid))):
+                continue
+            from .c08 import FrameMonitor  # noqa: PLC0415
+            new = FrameMonitor.response(None, w.pool["c"][cid])
+            w.probe("relative_later_behaviour_checked")
+            if not obs_equal(old, new):
+                return [self.v({"kind": "shared_structure", "op": k,
+                                "frozen": False, "related": True,
+                                "what": "later_behaviour"},
+                               f"('c', {cid}) answers a follow-up operation "
+                               f"differently after {k} acted on its copy")]
         # ---- sharing: a later mutation of one family member leaves the others
         # bit-identical (frozen copies also under parameter updates)
         allowed = set() if not ok else targets(w, op)
